@@ -54,6 +54,9 @@ type Program struct {
 	Ifaces  map[string]string   // interface name -> implementing type name (pointer receiver)
 	Structs map[string][]string // field struct name -> "Field Type" lines
 	Consts  []string            // extra top-level declarations (Value sources)
+	// GenConsts are top-level declarations placed in a separate file that carries a
+	// "Code generated ... DO NOT EDIT." header (a stringer/protobuf-like sibling file).
+	GenConsts []string
 	Decls   []Decl
 	Files   [][]int // decl indices per file (file 0 holds types and providers)
 	// ExtraImports are import spec lines for file 0, e.g. `ttemplate "text/template"`.
@@ -306,6 +309,9 @@ func (p *Program) Emit(bodyOf func(pr Prov) string, extraImports []string) map[s
 		sb.WriteString(declSrc(p.Decls[di]))
 	}
 	files["k.go"] = sb.String()
+	if len(p.GenConsts) > 0 {
+		files["zz_generated.go"] = "// Code generated by verif-corpus. DO NOT EDIT.\n\npackage " + p.Pkg + "\n\n" + strings.Join(p.GenConsts, "\n") + "\n"
+	}
 	for fi := 1; fi < len(fileDecls); fi++ {
 		var fb strings.Builder
 		fmt.Fprintf(&fb, "package %s\n\nimport \"github.com/mazrean/kessoku\"\n\n", p.Pkg)
